@@ -4,16 +4,17 @@ import json, os, random, re
 
 def sequences(seed, n):
     rng = random.Random(seed)
-    kinds = ["A", "B", "C", "D", "unparsable", "unknownkey", "badset", "missing"]
-    seqs = [["A", "B", "unparsable", "C", "D", "A"], ["A", "D", "B", "missing", "B", "badset", "C"], ["B", "unknownkey", "A", "A", "C"]]
+    kinds = ["A", "B", "C", "D", "E", "F", "G", "unparsable", "unknownkey", "badset", "missing"]
+    seqs = [["A", "B", "unparsable", "C", "D", "A"], ["A", "D", "B", "missing", "B", "badset", "C"], ["B", "unknownkey", "A", "A", "C"],
+            ["A", "E", "C", "E", "B", "F", "G", "A"], ["C", "E", "G", "B", "F", "C"]]
     while len(seqs) < n:
         seqs.append([rng.choice(["A", "B", "C"])] + [rng.choice(kinds) for _ in range(rng.randint(3, 7))])
     return seqs[:n]
 
 
-def run(ctx):
+def run(ctx, prop="C18"):
     thorough = ctx.tier == "thorough"
-    seqs = sequences(ctx.seed, 6 if not thorough else 40)
+    seqs = sequences(ctx.seed, 8 if not thorough else 40)
     lines = []
     for i, seq in enumerate(seqs):
         inp = os.path.join(ctx.scratch, "reload-%d.json" % i)
@@ -47,5 +48,5 @@ def run(ctx):
     key = {"reloaded": "reload-outcome", "wrote": "write-after-reload", "login": "login-after-reload", "inflight": "requests-unanswered"}.get(e["ev"], e["ev"])
     if e["ev"] == "reloaded":
         key += ":ok=%s" % e["ok"]
-    ctx.violation("C18", key, "the real agent's reload behaviour is not a behaviour of Reload.tla at event %d: %s (previous %s)" % (
+    ctx.violation(prop, key, "the real agent's reload behaviour is not a behaviour of Reload.tla at event %d: %s (previous %s)" % (
         hwm[0], json.dumps(e), json.dumps(prev)))
